@@ -22,6 +22,7 @@ import (
 	"github.com/networkteam/qrb/builder"
 	"github.com/networkteam/qrb/qrbpgx"
 	"github.com/networkteam/qrb/qrbsql"
+	"verif/internal/dump"
 	"verif/internal/gen"
 )
 
@@ -119,6 +120,9 @@ type c12Case struct {
 	NArgs     int    `json:"nargs"`
 	Panic     string `json:"panic,omitempty"`
 	SQL       string `json:"sql"`
+	// for the independent oracle (the extracted model): the value and one standard rendering record of ToSQL
+	Dump    string   `json:"dump"`
+	Renders []Render `json:"renders"`
 }
 
 func runC12(out io.Writer, seed int64, n int, hostile float64) {
@@ -126,8 +130,7 @@ func runC12(out io.Writer, seed int64, n int, hostile float64) {
 	g := gen.New(seed, pool)
 	g.Hostile = hostile
 	sg := &gen.S{G: g}
-	d := litDumper
-	_ = d
+	d := &dump.Dumper{AnyID: anyID}
 	id := 0
 	for i := 0; id < n; i++ {
 		var w builder.SQLWriter
@@ -148,6 +151,18 @@ func runC12(out io.Writer, seed int64, n int, hostile float64) {
 			continue
 		}
 		binds := bindsOfWriter(w)
+		dumpText := func() (t string) {
+			defer func() {
+				if recover() != nil {
+					t = ""
+				}
+			}()
+			return d.Value(w)
+		}()
+		namedIDs := map[string]int{}
+		for k, v := range binds {
+			namedIDs[k] = anyID(v)
+		}
 		for _, adapter := range []string{"pgx", "sql"} {
 			for _, method := range []string{"Query", "QueryRow", "Exec"} {
 				for _, path := range []string{"build-then-executor", "executor-then-build"} {
@@ -158,6 +173,12 @@ func runC12(out io.Writer, seed int64, n int, hostile float64) {
 						ExecFails: execFails, Prog: prog, Problems: []string{}}
 					id++
 					runOneC12(&c, w, binds, g)
+					c.Dump = dumpText
+					if named {
+						c.Renders = []Render{render(w, validate, false, namedIDs)}
+					} else {
+						c.Renders = []Render{render(w, validate, false, nil)}
+					}
 					enc.Encode(c)
 				}
 			}
